@@ -11,6 +11,8 @@ class VariationalOperator(Protocol):
 
 
 def apply_bounds(genomes: np.ndarray, bounds: np.ndarray, method: str) -> np.ndarray:
+    # The arithmetic below is on real numbers: the range of a box given as an integer-typed array may not fit its type.
+    bounds = np.asarray(bounds, dtype=float)
     lower_bounds = bounds[:, 0]
     upper_bounds = bounds[:, 1]
     if method == "clip":
